@@ -848,6 +848,92 @@ let run_case (t : string list) : string =
       Printf.sprintf "%s L=[%s] ev=%s"
         (match !bad with None -> "accepted" | Some k -> "pre-state-mismatch@" ^ string_of_int k)
         (Stdlib.String.concat "," (Stdlib.List.map string_of_int listing)) (Stdlib.String.concat "," ev)
+  | "rpctrace" :: maxs :: "|" :: rest ->
+      (* rpctrace <max|none> | <stream>* | <event>*
+         stream = route:hdrs:len:seed:resp   resp = - | status:hdrs:len:seed   hdrs = - | k=v+k=v (hex)
+         event  = <stream index>:<W|F|D|R|S|P|CE|SE>
+         The handler is the table "request id header -> response" the server side recorded. *)
+      let max = maxcfg maxs in
+      let rec split acc l =
+        match l with "|" :: t -> (Stdlib.List.rev acc, t) | x :: t -> split (x :: acc) t | [] -> (Stdlib.List.rev acc, [])
+      in
+      let streams_s, events_s = split [] rest in
+      let pattern n seed = Stdlib.List.init n (fun i -> byte_tbl.(((i * 31) + seed) land 255)) in
+      let hdrs s =
+        if s = "-" then []
+        else Stdlib.List.map
+            (fun kv -> match Stdlib.String.split_on_char '=' kv with
+               | [ k; v ] -> (unhex k, unhex v) | _ -> failwith "bad header")
+            (Stdlib.String.split_on_char '+' s)
+      in
+      let table : (string, Wire.response) Hashtbl.t = Hashtbl.create 16 in
+      let id_of (h : (coq_N list * coq_N list) list) =
+        match Stdlib.List.find_opt (fun (k, _) -> tohex k = "6964") h with Some (_, v) -> tohex v | None -> "?" in
+      let reqs =
+        Stdlib.List.map
+          (fun s ->
+            match Stdlib.String.split_on_char ':' s with
+            | route :: h :: len :: seed :: resp ->
+                let q = { Wire.rq_version = n_of_int 1; rq_route = unhex route; rq_headers = hdrs h;
+                          rq_body = pattern (int_of_string len) (int_of_string seed); rq_ext = [] } in
+                (match resp with
+                 | [ st; rh; rl; rs ] ->
+                     (match Status.status_new (n_of_string st) with
+                      | Some code ->
+                          Hashtbl.replace table (id_of q.Wire.rq_headers)
+                            { Wire.rs_version = n_of_int 1; rs_status = code; rs_headers = hdrs rh;
+                              rs_body = pattern (int_of_string rl) (int_of_string rs); rs_ext = [] }
+                      | None -> failwith "bad status")
+                 | _ -> ());
+                q
+            | _ -> failwith "bad stream")
+          streams_s
+      in
+      let default = { Wire.rs_version = n_of_int 1; rs_status = (match Status.status_new (n_of_int 500) with Some c -> c | None -> failwith "500");
+                      rs_headers = []; rs_body = []; rs_ext = [] } in
+      let handler (q : Wire.request) = match Hashtbl.find_opt table (id_of q.Wire.rq_headers) with Some r -> r | None -> default in
+      let conn0 =
+        Stdlib.List.map
+          (fun q -> match Wire.enc_request max q with
+             | Base.Ok w -> Rpc.open_stream w
+             | Base.Err _ -> Rpc.open_stream [])       (* refused by the sender's own encoder: nothing is written *)
+          reqs
+      in
+      let rec nat_of_int i = if i <= 0 then Datatypes.O else Datatypes.S (nat_of_int (i - 1)) in
+      let rec int_of_nat n = match n with Datatypes.O -> 0 | Datatypes.S m -> 1 + int_of_nat m in
+      let ev s =
+        match Stdlib.String.split_on_char ':' s with
+        | [ i; e ] ->
+            (nat_of_int (int_of_string i),
+             (match e with
+              | "W" -> RpcTrace.EWritten | "F" -> RpcTrace.EFin | "D" -> RpcTrace.EDecoded | "R" -> RpcTrace.EReturned
+              | "S" -> RpcTrace.EFinished | "P" -> RpcTrace.EResponse | "CE" -> RpcTrace.ECallerEnd | "SE" -> RpcTrace.EServerEnd
+              | _ -> failwith "bad rpc event"))
+        | _ -> failwith "bad rpc event"
+      in
+      let c, rej = RpcTrace.erun max handler conn0 Datatypes.O (Stdlib.List.map ev events_s) in
+      let fnv (l : coq_N list) =
+        let h = ref 0xcbf29ce484222325L in
+        Stdlib.List.iter (fun x -> h := Int64.mul (Int64.logxor !h (Int64.of_int (int_of_n x))) 0x100000001b3L) l;
+        Printf.sprintf "%d:%016Lx" (Stdlib.List.length l) !h
+      in
+      let hs h = let l = Stdlib.List.sort compare (Stdlib.List.map (fun (k, v) -> tohex k ^ ":" ^ tohex v) h) in
+        if l = [] then "-" else Stdlib.String.concat "+" l in
+      let per =
+        Stdlib.List.mapi
+          (fun i st ->
+            let sss = match st.Rpc.ss with
+              | Rpc.SWait -> "wait" | Rpc.SRunning _ -> "running" | Rpc.SWriting _ -> "writing" | Rpc.SDone -> "done"
+              | Rpc.SFailed -> "failed" | Rpc.SDropped -> "dropped" in
+            let css = match st.Rpc.cs with
+              | Rpc.CWriting _ -> "writing" | Rpc.CFinished -> "finished" | Rpc.CAbandoned _ -> "abandoned"
+              | Rpc.CGot (Base.Ok r) ->
+                  Printf.sprintf "ok,st=%s,hdr=%s,body=%s" (string_of_n (Status.status_to_u16 r.Wire.rs_status)) (hs r.Wire.rs_headers) (fnv r.Wire.rs_body)
+              | Rpc.CGot (Base.Err _) -> "err" in
+            Printf.sprintf "%d:inv=%d:ss=%s:cs=%s" i (int_of_nat st.Rpc.invocations) sss css)
+          c
+      in
+      (match rej with None -> "accepted" | Some k -> "rejected@" ^ string_of_int (int_of_nat k)) ^ " " ^ Stdlib.String.concat " " per
   | "netmodel" :: spec :: "|" :: ops ->
       (* netmodel <id:name:alt|-:limit|-;...> | D a b [x] | X a b | R a | K a p aff | P a b | H a b | Q *)
       let nodes =
